@@ -25,6 +25,7 @@ from vf import env
 from vf.runner import HarnessError, V
 
 FINDING_PATH_FAILURE = 'C18-path-failure-leaves-configured'
+FINDING_CASE_KEY = 'C18-kwargs-lose-to-file-key-in-other-case'
 
 FILE_B = env.HARNESS_DATA / 'C18_config_B.toml'
 FILE_MALFORMED = env.HARNESS_DATA / 'C18_config_malformed.toml'
@@ -87,24 +88,29 @@ def load_args(kind):
     if kind == 'fileB':
         return Path(FILE_B), {}
     if kind == 'fileB+kwC':  # file and keyword arguments overlapping in nested keys and at top level
-        # (a key that the file spells in another case than the packaged defaults is given in the file's
-        # spelling here; see the report on exact-case keyword + case-variant file key)
+        # the same setting spelled differently in the two layers, with different values, both ways round:
+        # file `Performance_Model` / `HC_Method` vs exact lower-case keywords, file `pmnvol_method` vs
+        # keyword `PMNVOL_METHOD`; same spelling in both for `nox_method`
         return str(FILE_B), {
-            'Performance_Model': 'performance/sample_performance_model.toml',
+            'performance_model': 'performance/sample_performance_model.toml',
             'weather': {'Weather_Data_Dir': 'weather'},
-            'emissions': {'nox_method': 'p3t3', 'gse_enabled': False, 'fuel': 'SAF', 'PMNVOL_METHOD': 'None'},
-        }
+            'emissions': {'nox_method': 'p3t3', 'hc_method': 'p3t3', 'gse_enabled': False, 'fuel': 'SAF',
+                          'PMNVOL_METHOD': 'None'},
+        }  # fmt: skip
     if kind == 'kwPath':  # explicit search path as keyword argument; the named files exist only there
         return None, {
             'path': [str(SEARCH_DIR)],
             'performance_model': 'performance/C18_pm.toml',
             'engine_file': 'engines/C18_edb.xlsx',
-            'emissions': {'co_method': 'none'},
+            'emissions': {'co_method': 'NONE'},  # the same value string as kwOverrides, other option family
         }
     if kind == 'filePath':  # explicit (relative) search path inside the configuration file
         return Path(FILE_P), {}
     if kind == 'kwOverrides':  # the way the repository's own test fixture loads
-        return None, {'data_path_overrides': [Path(env.TEST_DATA)], 'emissions': {'lifecycle_enabled': False}}
+        return None, {
+            'data_path_overrides': [Path(env.TEST_DATA)],
+            'emissions': {'lifecycle_enabled': False, 'Pmnvol_Method': 'NONE'},
+        }
     if kind == 'bad_enum':
         return None, {'emissions': {'nox_method': 'bogus'}}
     if kind == 'bad_type':
@@ -203,6 +209,38 @@ def expected_values(kind):
     for key in ('path', 'data_path_overrides'):
         if eff.get(key):
             out[key] = [str(Path(p).resolve()) for p in eff[key]]
+    return out
+
+
+def _flat(d, prefix=''):
+    """(flat lower-case key, raw key spelling path, value) of every non-table entry."""
+    for k, v in d.items():
+        if isinstance(v, dict):
+            yield from _flat(v, f'{prefix}{k.lower()}.')
+        else:
+            yield f'{prefix}{k.lower()}', k, v
+
+
+def case_conflicts(kind):
+    """Settings that the file and the keyword arguments of this load kind both give, spelled in
+    different case: {flat key: canonical value the FILE gives}. Used only to recognise the signature of
+    finding C18-kwargs-lose-to-file-key-in-other-case (effective value = the file's value)."""
+    cfile, kw = load_args(kind)
+    if cfile is None or not kw:
+        return {}
+    with open(cfile, 'rb') as fp:
+        fdata = {fk: (raw, v) for fk, raw, v in _flat(tomllib.load(fp))}
+    dirs = search_path(effective_data(kind).get('path'))
+    out = {}
+    for fk, raw, _v in _flat(kw):
+        if fk in fdata and fdata[fk][0] != raw:
+            v = fdata[fk][1]
+            if fk in ('performance_model', 'engine_file', 'weather.weather_data_dir') and v is not None:
+                loc = locate(v, dirs)
+                v = None if loc is None else str(loc)
+            elif fk.split('.')[-1] in ENUM_KEYS:
+                v = v.lower()
+            out[fk] = v
     return out
 
 
@@ -386,6 +424,7 @@ class ConfigDriver:
             raise HarnessError(f'C18: {FILE_MISSING} must not exist')
         self.keys = list(dict.fromkeys(k for v in self.expected.values() for k in v))
         self.data = {k: effective_data(k) for k in DIRECT_KINDS}
+        self.conflicts = {k: case_conflicts(k) for k in VALID}
         if Path('data/C18_search').resolve() != SEARCH_DIR.resolve():
             raise HarnessError('C18: the working directory must be the harness directory (relative search path in file P)')
         if len({fingerprint_values(v) for v in self.expected.values()}) != len(VALID):
@@ -557,7 +596,13 @@ class ConfigDriver:
                     finding = FINDING_PATH_FAILURE
                 shown = got[:2] if got[0] == 'ok' else got
                 if bad == 'wrong-value':
-                    shown = ('differences', diff(exp[1], got[1]))
+                    dd = diff(exp[1], got[1])
+                    shown = ('differences', dd)
+                    cc = self.conflicts.get(arg, {}) if op == 'load' else {}
+                    if dd and all(k in cc and dd[k]['observed'] == cc[k] for k in dd):
+                        # every wrong value is the file's value of a setting that the keyword arguments
+                        # give in another spelling
+                        finding = FINDING_CASE_KEY
                 vio.append(
                     V(
                         f'step:{op}:{bad}',
